@@ -13,7 +13,6 @@ import (
 	"github.com/attestantio/go-eth2-client/spec/phase0"
 	"github.com/attestantio/vouch/internal/vnd"
 	"github.com/attestantio/vouch/internal/vstub"
-	"github.com/rs/zerolog"
 )
 
 type c07Provider struct {
@@ -49,7 +48,7 @@ func (p *c07Provider) BeaconBlockHeader(ctx context.Context, _ *api.BeaconBlockH
 
 // c07New builds the strategy through the package's constructor.
 func c07New(timeout time.Duration, providers map[string]eth2client.BeaconBlockHeadersProvider) *Service {
-	s, err := New(context.Background(), WithLogLevel(zerolog.Disabled), WithClientMonitor(vstub.ClientMonitor{}),
+	s, err := New(context.Background(), WithLogLevel(vnd.LogLevel()), WithClientMonitor(vstub.ClientMonitor{}),
 		WithTimeout(timeout), WithBeaconBlockHeadersProviders(providers))
 	vnd.Assert(err == nil && s != nil, "C07.new.accepted")
 	return s
